@@ -29,7 +29,7 @@ def _init_jax() -> None:
         pass
     import jumanji
 
-    assert os.path.realpath(jumanji.__file__).startswith("/repo/"), jumanji.__file__
+    assert os.path.realpath(jumanji.__file__).startswith(os.path.realpath(os.environ.get("JSIM_REPO", "/repo")) + "/"), jumanji.__file__
     _JAX_READY = True
 
 
